@@ -243,6 +243,9 @@ def rule_estimators(ctx: Ctx):
                     if isinstance(it, ast.Call) and norm(it.func) in ("pairwise", "itertools.pairwise") and len(it.args) == 1:
                         S = norm(it.args[0])
                     elif isinstance(it, ast.Call) and norm(it.func) == "zip" and len(it.args) == 2 and \
+                            norm(it.args[1]) in (f"islice({norm(it.args[0])}, 1, None)", f"itertools.islice({norm(it.args[0])}, 1, None)"):
+                        S = norm(it.args[0])
+                    elif isinstance(it, ast.Call) and norm(it.func) == "zip" and len(it.args) == 2 and \
                             norm(it.args[1]) in (f"{norm(it.args[0])}[1:]", f"{norm(it.args[0]).replace('[:-1]', '')}[1:]") and \
                             (norm(it.args[0]).endswith("[:-1]") or not isinstance(it.args[0], ast.Subscript)):
                         S = norm(it.args[0]).replace("[:-1]", "")
